@@ -30,7 +30,7 @@ for _cc in ('gcc', 'clang'):
         for _std in ((), ('-std=gnu89',)):
             for _san in ((), tuple(SAN)):
                 CELLS.append((_cc, (_o,) + _std + _san))
-MAKERS = ['c02_expr', 'c03_ctrl', 'c04_calls', 'c05_history', 'c06_inst', 'c11_names']
+MAKERS = ['c02_expr', 'c03_ctrl', 'c04_calls', 'c05_history', 'c06_inst', 'c11_names', 'c03_ctrl']
 
 HAZ = ('signbit', 'count>=width', 'carry', 'truncboundary', 'div-1', 'dividendMIN')
 
@@ -258,7 +258,7 @@ def plan(tier, seed):
     # in instrumented builds: any signed overflow / invalid shift / out-of-range conversion inside a helper macro is reported
     ops = gen.INT_OPS + gen.FLOAT_OPS
     if tier == 'quick':
-        jobs = [{'ncases': 10, 'ncells': 6, 'reduce_budget': 30} for _ in range(32)]
+        jobs = [{'ncases': 16, 'ncells': 6, 'reduce_budget': 30} for _ in range(32)]
         flat_ccs, nslices, nrandom = ['gcc-O1-san', 'clang-O1-san'], 8, 300
     else:
         jobs = [{'ncases': 20, 'ncells': 32, 'reduce_budget': 60} for _ in range(64)]
